@@ -42,6 +42,8 @@ KEY = ('key',)
 EVENT = ('event',)
 LIST = ('list',)
 OTHER = ('other',)
+MIN_ENTRY = ('minentry',)
+MIN_EVENT = ('minevent',)
 
 CASES = [('empty', 'the list is empty'), ('absent', 'other events are pending, this one is not'), ('first', 'the event is the first element of the backing list'),
          ('later', 'the event stands at a later position of the backing list')]
@@ -53,8 +55,9 @@ class Interp:
         self.is_key = is_key                 # (expr, name bound to the event) -> bool: the expression is the key add() stores for that event
         self.present = case in ('first', 'later')
         self.others = case != 'empty' and (case == 'absent' or None)      # True: certainly other elements; None: not known (K may be alone)
-        self.removed = None                  # None | 'K' | 'other'
+        self.removed = None                  # None | 'K' | 'other' | 'min'
         self.depth = 0
+        self.ev_index = None                 # position of the event in a heap entry (None: the events are the entries)
 
     # ------------------------------------------------------------------ statements
     def run(self, fn):
@@ -168,7 +171,7 @@ class Interp:
             return v[1]
         if isinstance(v, tuple) and v[0] == 'int':
             return v[1] != 0
-        if v in (POS, LEN, KEY, EVENT, OTHER):
+        if v in (POS, LEN, KEY, EVENT, OTHER, MIN_ENTRY, MIN_EVENT):
             return True
         if v == LIST:
             return self.nonempty()
@@ -217,6 +220,16 @@ class Interp:
             return self.compare(e, env)
         if isinstance(e, ast.Call):
             return self.call(e, env)
+        if isinstance(e, ast.Subscript) and not isinstance(e.slice, ast.Slice):
+            base = self.ev(e.value, env)
+            i = self.ev(e.slice, env)
+            if base == LIST and i == ('int', 0):
+                if not self.nonempty():
+                    raise _Raise('IndexError')
+                return MIN_ENTRY                     # F[0] of a heap: the entry with the smallest key (the heap discipline is R1.1)
+            if base == MIN_ENTRY and isinstance(i, tuple) and i[0] == 'int':
+                return MIN_EVENT if i[1] == self.ev_index else ('component', i[1])
+            raise Unsupported(f'subscript `{unparse(e)[:40]}`')
         if isinstance(e, ast.JoinedStr):
             return OTHER
         if isinstance(e, ast.NamedExpr) and isinstance(e.target, ast.Name):
@@ -324,6 +337,13 @@ class Interp:
             return NONE
         if ft in ('heapq.heapify',) and len(e.args) == 1 and self.ev(e.args[0], env) == LIST:
             return NONE
+        if ft == 'heapq.heappop' and len(e.args) == 1 and self.ev(e.args[0], env) == LIST:
+            if self.removed is not None:
+                raise Unsupported('a second removal')
+            if not self.nonempty():
+                raise _Raise('IndexError')
+            self.removed = 'min'
+            return MIN_ENTRY
         if isinstance(f, ast.Attribute):
             recv, m = f.value, f.attr
             if isinstance(recv, ast.Name) and recv.id == 'self':
@@ -412,4 +432,46 @@ def check_observers(prog, cls, F, is_key, contains_fn, remove_fn):
                         problems[kind].append((cid, desc, 'an element is removed although the event is not on the list'))
                     elif b is not False:
                         problems[kind].append((cid, desc, f'nothing is removed but remove() returns {b if b is not None else out[1][0]}'))
+    return problems, None
+
+
+def check_peek_pop(prog, cls, F, ev_index, peek_fn, pop_fn):
+    """peek_first / pop_first for an empty and a non-empty list -> ({'peek_first': [...], 'pop_first': [...]}, None) or (None, reason)"""
+    problems = {'peek_first': [], 'pop_first': []}
+    for kind, fn in (('peek_first', peek_fn), ('pop_first', pop_fn)):
+        for (cid, desc) in (('empty', 'the list is empty'), ('absent', 'events are pending')):
+            it = Interp(prog, cls, F, cid, lambda e, n: False)
+            it.ev_index = ev_index
+            env_fn = fn
+            try:
+                try:
+                    it.block(body_of(env_fn), {})
+                    out = ('return', NONE)
+                except _Return as r:
+                    out = ('return', r.value)
+                except _Raise as e:
+                    out = ('raise', e.kind)
+            except Unsupported as e:
+                return None, f'{kind}: {e}'
+            except RecursionError:
+                return None, 'recursion'
+            if out[0] == 'raise':
+                problems[kind].append((cid, desc, f'{out[1]} escapes'))
+                continue
+            want_event = MIN_EVENT if ev_index is not None else MIN_ENTRY
+            if cid == 'empty':
+                if out[1] != NONE:
+                    problems[kind].append((cid, desc, f'{kind}() returns {out[1][0]}, not None'))
+                elif it.removed is not None:
+                    problems[kind].append((cid, desc, 'an element is removed from an empty list'))
+            else:
+                if out[1] != want_event:
+                    what = 'None' if out[1] == NONE else (f'component {out[1][1]} of the smallest entry' if out[1][0] == 'component' else
+                                                            'the whole heap entry' if out[1] == MIN_ENTRY else out[1][0])
+                    problems[kind].append((cid, desc, f'{kind}() returns {what}, not the event of the smallest entry'))
+                elif kind == 'peek_first' and it.removed is not None:
+                    problems[kind].append((cid, desc, 'peek_first() removes an element'))
+                elif kind == 'pop_first' and it.removed != 'min':
+                    problems[kind].append((cid, desc, 'pop_first() hands out the first event without removing it' if it.removed is None
+                                           else 'pop_first() removes another element than the smallest'))
     return problems, None
